@@ -79,7 +79,6 @@ fn i5_json_slice_loop() {
 
 /// I4j: json::Output framing: one line per document; short writes and write faults.
 #[kani::proof]
-#[kani::stub(std::io::Write::write_fmt, depcommon::write_fmt_contract)]
 #[kani::unwind(8)]
 fn i4_json_output_framing() {
 	let mut w = LogW::new();
